@@ -5,6 +5,7 @@ TRUSTED_BASE = [
     "the hand-written Lean model's reading of the Go code, tied on every run by the differential correspondence streams listed under coverage.correspondence (to the extent of their generators)",
     "harness (Go): generators, canonicalisation, Go-side oracles; compiled Lean driver goatspec (Lean compiler trusted to agree with kernel reduction for the model functions)",
     "GoatSpec/Extracted.lean regenerated from the compiled /repo packages by `vh extract` on every run",
+    "GoatSpec/Skeleton.lean regenerated from /repo's Go source by the translator `vh skeleton` (go/packages + go/types; trusted: the translator, its list of file-system mutating primitives, static call resolution - calls through function values are reported as fallible unknowns, reflection/cgo/unsafe are invisible); its summary table is only a hint: the kernel checks that it is a fixed point of the Lean transfer function",
 ]
 
 _INSTR_TRUSTED = ["modelled, not verified: go/parser positions and go/printer re-formatting (A1, A2), astutil import editing (A3); internal/absast extractor (never calls goat functions) is trusted to report node kinds, Walk order and line numbers faithfully"]
